@@ -80,7 +80,7 @@ def run(ctx, only=None):
         ctx.count("R2.functions")
         for tgt, kind, site in gws:
             ctx.ob("R2", "global-write|%s|%s" % (fi.qualname, site.key()), site.loc(), "%s writes module-level state: %s %s" % (fi.qualname, kind, tgt), False)
-    if not any(o.rule == "R2" and not o.ok for o in ctx.obligations):
+    if not ctx.failed("R2"):
         ctx.ob("R2", "no-global-write", "library modules", "none of the %d library functions writes a module, class or function attribute, a module constant or a global name" % len(walked), True)
     for m, name, site, kind in module_mutables(prog, LIB):
         uses = name_uses(prog, m.short, name)
@@ -117,7 +117,7 @@ def run(ctx, only=None):
         ctx.count("R4.functions")
         for what, site, via in amb:
             ctx.ob("R4", "ambient|%s|%s|%s" % (q, what, site.key()), site.loc(), "%s reads ambient state (%s) via %s: its verdict is not a function of its arguments alone" % (q, what.split(":", 1)[-1], " -> ".join(via)), False)
-    if not any(o.rule == "R4" and not o.ok for o in ctx.obligations):
+    if not ctx.failed("R4"):
         ctx.ob("R4", "no-ambient", "validators/verifiers", "no clock, environment, randomness, locale, filesystem or stdin read is reachable from the %d pure anchors" % len(pure_anchors(prog)), True)
 
     # the file helpers read the file system by design, but nothing else of the environment: what
